@@ -22,6 +22,7 @@ import (
 	"github.com/openGemini/openGemini/lib/bufferpool"
 	"github.com/openGemini/openGemini/lib/errno"
 	"github.com/openGemini/openGemini/lib/util"
+	"github.com/openGemini/openGemini/lib/util/lifted/influx/influxql"
 	"github.com/openGemini/openGemini/lib/util/lifted/influx/query"
 	internal "github.com/openGemini/openGemini/lib/util/lifted/influx/query/proto"
 	"google.golang.org/protobuf/proto"
@@ -516,7 +517,7 @@ func MarshalBinary(q hybridqp.QueryNode) ([]byte, error) {
 		pb.Opt = opt
 		pb.Schema = &internal.QuerySchema{
 			ColumnNames: q.Schema().GetColumnNames(),
-			QueryFields: q.Schema().GetQueryFields().String(),
+			QueryFields: influxql.FieldsStringForCodec(q.Schema().GetQueryFields()),
 		}
 	}
 	if q.Schema().Options().CanQueryPushDown() {
